@@ -518,6 +518,8 @@ pub fn format_block(ctx: &Context, block: &Block, shape: Shape) -> Block {
         ctx = ctx.check_toggle_formatting(stmt);
 
         let shape = shape.reset();
+        // A statement which is ignored or outside of the formatting range keeps its semicolon (and its trivia) untouched
+        let keep_semicolon_verbatim = !matches!(ctx.should_format_node(stmt), FormatNode::Normal);
         let mut stmt = format_stmt(&ctx, stmt, shape);
 
         // If this is the first stmt, then remove any leading newlines
@@ -526,6 +528,11 @@ pub fn format_block(ctx: &Context, block: &Block, shape: Shape) -> Block {
                 stmt = stmt_remove_leading_newlines(stmt);
             }
             found_first_stmt = true;
+        }
+
+        if keep_semicolon_verbatim {
+            formatted_statements.push((stmt, semi.to_owned()));
+            continue;
         }
 
         // If we have a semicolon, we need to push all the trailing trivia from the statement
@@ -592,6 +599,9 @@ pub fn format_block(ctx: &Context, block: &Block, shape: Shape) -> Block {
             ctx = ctx.check_toggle_formatting(last_stmt);
 
             let shape = shape.reset();
+            // A statement which is ignored or outside of the formatting range keeps its semicolon (and its trivia) untouched
+            let keep_semicolon_verbatim =
+                !matches!(ctx.should_format_node(last_stmt), FormatNode::Normal);
             let mut last_stmt = format_last_stmt(&ctx, last_stmt, shape);
             // If this is the first stmt, then remove any leading newlines
             if !found_first_stmt && matches!(ctx.should_format_node(&last_stmt), FormatNode::Normal)
@@ -602,6 +612,7 @@ pub fn format_block(ctx: &Context, block: &Block, shape: Shape) -> Block {
             // LastStmt will never need a semicolon
             // We need to check if we previously had a semicolon, and keep the comments if so
             let semicolon = match semi {
+                Some(semi) if keep_semicolon_verbatim => Some(semi.to_owned()),
                 Some(semi) => {
                     // Append semicolon trailing trivia to the end, but before the newline
                     // TODO: this is a bit of a hack - we should probably move newline appending to this function
